@@ -92,6 +92,11 @@ def plan(tier):
         # runs inside it, before its creator has suspended (native trace 1 3 4 2 5). Expected to FAIL on the current tree.
         extra.append(dict(common, name='nested_install', vectors=[[0, 2, 0, 9, 0]], concrete=[([0, 2, 0, 9, 0], [0, 0])],
                           space='root: spawn child (discarded suspend point); install_queue_and_call([]{}); finish', bounds='-'))
+    sf = [[0, 2, 0, 10, 0, 0], [0, 3, 1, 3, 10, 1, 7, 0], [1, 2, 0, 10, 0, 0], [0, 3, 0, 0, 10, 0, 0, 0], [0, 2, 10, 0, 0, 0], [0, 3, 0, 10, 2, 0, 0], [2, 1, 10, 1, 0, 0, 0],
+          [0, 3, 1, 5, 10, 1, 7, 0], [0, 1, 10, 0]]
+    extra.append(dict(common, name='start_future', vectors=sf, concrete=[(sf[0], [0, 0]), (sf[1], [3, 3])],
+                      space='hand-written programs in which a running coroutine starts a child as a future (async::start(), step 10; the child finishes at once) after having made other coroutines ready '
+                            'by detach / promise resolution: %s' % sf, bounds='9 programs'))
     return extra + [
         dict(common, name='programs', vectors=[vec(p) for p in progs], concrete=conc,
              space=space + '. Steps: %s; a script ends with the coroutine finishing; promises still pending at the end are resolved by the harness (each a new outermost activation)' % (OPS,),
